@@ -791,7 +791,7 @@ func c47pDrawShape(rt *rapid.T) c47pShape {
 		}
 		var cl c47pCluster
 		if sh.stSizes[i] >= 2 && rapid.Bool().Draw(rt, fmt.Sprintf("st%d/cluster", i)) {
-			cl = c47pCluster{n: rapid.IntRange(8, 40).Draw(rt, fmt.Sprintf("st%d/clusterSlots", i)), bits: rapid.IntRange(10, 14).Draw(rt, fmt.Sprintf("st%d/clusterBits", i))}
+			cl = c47pCluster{n: rapid.IntRange(8, 40).Draw(rt, fmt.Sprintf("st%d/clusterSlots", i)), bits: rapid.IntRange(11, 15).Draw(rt, fmt.Sprintf("st%d/clusterBits", i))}
 		}
 		sh.clusters = append(sh.clusters, cl)
 	}
@@ -1326,7 +1326,6 @@ type c47pStep struct {
 	cancelAt    int64 // served requests
 	cancelAccts int64 // flat account writes
 	cancelChunk int64 // accepted replies to chunked storage requests (whichever comes first)
-	cancelHold  bool  // or when a slow peer sits on an early storage chunk while later ones progressed
 	move        bool
 	fresh       bool
 	last        bool // no cancel point
@@ -1377,7 +1376,7 @@ func c47pFetched(p *syncProgressV2, h common.Hash) bool {
 	return true
 }
 
-const c47pMult = 0.4
+const c47pMult = 1.0
 
 // c47pCycleBound bounds one Sync cycle. The states are small (a cycle needs well under a
 // second of CPU), and a scheduler that keeps serving requests without getting anywhere
@@ -1407,7 +1406,11 @@ func TestVerifC47PivotV2(t *testing.T) {
 		nSteps := len(sh.gaps) + rapid.IntRange(0, 2).Draw(rt, "extraCycles")
 		// cancel points: after a few served requests (lands in the catch-up of a moved cycle),
 		// after a share of the requests a complete sync needs at least, or after a share of
-		// the accounts has been written (controls the fetched / not yet fetched partition)
+		// the accounts has been written (controls the fetched / not yet fetched partition);
+		// in addition after a number of accepted storage chunk replies, and every cycle but
+		// the last is interrupted when a slow peer (c47Peer.holds) that sits on an early
+		// storage chunk of a contract has seen later chunks progress (resume from a journal
+		// that describes fetched storage behind an open chunk)
 		est := 16 + len(chain.states[0].codes)/4
 		for _, a := range chain.states[0].accts {
 			if a.st != nil {
@@ -1432,11 +1435,8 @@ func TestVerifC47PivotV2(t *testing.T) {
 				s.cancelAccts = int64(1 + len(chain.states[0].accts)*rapid.IntRange(10, hi).Draw(rt, fmt.Sprintf("step%d/cancelAcctPct", i))/100)
 			}
 			// additionally: in the middle of a large-contract retrieval, if there is one
-			switch rapid.IntRange(0, 3).Draw(rt, fmt.Sprintf("step%d/cancelInChunks", i)) {
-			case 0:
+			if rapid.Bool().Draw(rt, fmt.Sprintf("step%d/cancelInChunks", i)) {
 				s.cancelChunk = int64(rapid.IntRange(1, 10).Draw(rt, fmt.Sprintf("step%d/cancelChunkReplies", i)))
-			case 1, 2:
-				s.cancelHold = true
 			}
 			plan = append(plan, s)
 		}
@@ -1520,7 +1520,7 @@ func TestVerifC47PivotV2(t *testing.T) {
 			regPeers = nil
 			sy.rates.OverrideTTLLimit = ttl
 			sy.catchUpWindow = sh.window
-			run := &c47Run{state: state, cancel: make(chan struct{}), cancelAt: step.cancelAt, cancelChunked: step.cancelChunk, holdCancel: step.cancelHold}
+			run := &c47Run{state: state, cancel: make(chan struct{}), cancelAt: step.cancelAt, cancelChunked: step.cancelChunk, holdCancel: !step.last}
 			wdb.arm(step.cancelAccts, func() { run.cancelOnce.Do(func() { close(run.cancel) }) })
 			for i, pp := range sets[ci].peers {
 				p := c47pNewPeer(t, fmt.Sprintf("c%d-peer%d", ci, i), run, pp)
@@ -1528,13 +1528,17 @@ func TestVerifC47PivotV2(t *testing.T) {
 				p.remote = sy
 				regPeers = append(regPeers, p.id)
 			}
-			history = append(history, fmt.Sprintf("cycle %d: pivot #%d cancelAfter=%dreq/%dacc/%dchunk/hold=%v fresh=%v peers=%s", ci, chain.pivots[cur], step.cancelAt, step.cancelAccts, step.cancelChunk, step.cancelHold, step.fresh, sets[ci].desc))
+			history = append(history, fmt.Sprintf("cycle %d: pivot #%d cancelAfter=%dreq/%dacc/%dchunk fresh=%v peers=%s", ci, chain.pivots[cur], step.cancelAt, step.cancelAccts, step.cancelChunk, step.fresh, sets[ci].desc))
 			syc := sy
 			out := c47Sync(func(cc chan struct{}) error { return syc.Sync(target, cc) }, func() string { return c47DumpSyncerV2(syc) }, run, base, c47pCycleBound)
 			total.served.Add(run.served.Load())
 			total.rejected.Add(run.rejected.Load())
 			total.tampered.Add(run.tampered.Load())
 			total.chunked.Add(run.chunked.Load())
+			total.multiReqs.Add(run.multiReqs.Load())
+			total.held.Add(run.held.Load())
+			total.heldReached.Add(run.heldReached.Load())
+			total.heldCancel.Add(run.heldCancel.Load())
 			for k := 0; k < 4; k++ {
 				total.rejectedBy[k].Add(run.rejectedBy[k].Load())
 			}
@@ -1655,6 +1659,10 @@ func TestVerifC47PivotV2(t *testing.T) {
 		c.Classf("pivot/access-list-refused=%v", cnt.balRefused.Load() > 0)
 		c.Classf("pivot/chunked-storage=%v", total.chunked.Load() > 0)
 		c.Classf("pivot/code-cleared-on-already-fetched-account=%v", fetchedCleared > 0)
+		c.Classf("pivot/contract-split-into-several-chunks=%v", total.multiReqs.Load() > 0)
+		c.Classf("pivot/slow-peer-held-early-chunk=%v", total.held.Load() > 0)
+		c.Classf("pivot/slow-peer-saw-later-chunks-progress=%v", total.heldReached.Load() > 0)
+		c.Classf("pivot/interrupted-by-slow-peer=%v", total.heldCancel.Load() > 0)
 		c.Classf("pivot/resumed-with-multi-chunk-contract=%v", multiChunk > 0)
 		c.Classf("pivot/resumed-with-open-chunk-before-fetched-slots=%v", laterChunk > 0)
 		c.Classf("pivot/rejected>0=%v", total.rejected.Load() > 0)
